@@ -1172,3 +1172,70 @@ func isSliceT(t types.Type) bool {
 	_, ok := t.Underlying().(*types.Slice)
 	return ok
 }
+
+// blockPanics reports whether the basic block of the instruction ends in a panic or continues with a call of a
+// function that does not return (the call only builds the message of a panic).
+func blockPanics(in ssa.Instruction) bool {
+	return blockPanicsEng(nil, in)
+}
+
+func blockPanicsEng(eng *Engine, in ssa.Instruction) bool {
+	b := in.Block()
+	if b == nil || len(b.Instrs) == 0 {
+		return false
+	}
+	if _, ok := b.Instrs[len(b.Instrs)-1].(*ssa.Panic); ok {
+		return true
+	}
+	if eng == nil {
+		return false
+	}
+	after := false
+	for _, i := range b.Instrs {
+		if i == in {
+			after = true
+			continue
+		}
+		if !after {
+			continue
+		}
+		if c, ok := i.(ssa.CallInstruction); ok {
+			if f := c.Common().StaticCallee(); f != nil {
+				if fc := eng.CS.Funcs[funcKey(f)]; fc != nil && fc.NoReturn {
+					return true
+				}
+			}
+		}
+	}
+	return false
+}
+
+// ---- scratch ghosts ----
+
+// A ghost whose name starts with "scratch" is private to the functions that use it: each function whose contract
+// mentions it must set it at entry (so its value never flows in from outside), and in return it needs no assigns
+// clause anywhere (callers of such a function are not obliged to list it).
+func isScratchGhost(name string) bool { return strings.HasPrefix(name, "scratch") }
+
+func (ex *Exec) checkScratchGhosts(fc *FuncContract, key string) {
+	setAtEntry := map[string]bool{}
+	for _, cl := range fc.Sites {
+		if cl.Kind == "set:entry" {
+			setAtEntry[cl.Label] = true
+		}
+	}
+	mention := func(text string) {
+		for _, g := range ex.eng.CS.Ghosts {
+			if isScratchGhost(g.Name) && strings.Contains(text, g.Name) && !setAtEntry[g.Name] {
+				ex.eng.errorf("contract of %s mentions the scratch ghost %s without 'at entry set %s = ...'", key, g.Name, g.Name)
+				setAtEntry[g.Name] = true
+			}
+		}
+	}
+	for _, group := range [][]*Clause{fc.Requires, fc.Ensures, fc.Sites, fc.Assume, fc.PanicsIf} {
+		for _, cl := range group {
+			mention(cl.Text)
+			mention(cl.Label)
+		}
+	}
+}
